@@ -67,6 +67,8 @@ type Exec struct {
 	Points    []PointInfo
 	Choices   []int
 	Races     []string
+	Faults    []string // misuse detected by the sync shim (e.g. a pooled object shared by two threads)
+	Calls     []int    // per function id: number of executions (all threads)
 	Deadlock  bool
 	vars      map[string]*varState
 	Counts    map[string][2]int // per variable: reads, writes
@@ -307,6 +309,34 @@ func Access(name string, write bool, site string) {
 	} else {
 		vs.reads[t.id] = &access{t.id, t.vc[t.id], site}
 	}
+}
+
+// Fault records a synchronisation fault detected by the shim.
+func Fault(msg string) {
+	if e := active; e != nil && e.cur != nil {
+		e.Faults = append(e.Faults, msg)
+	}
+}
+
+// CurID is the running thread's id (0 outside a controlled execution).
+func CurID() int {
+	if e := active; e != nil && e.cur != nil {
+		return e.cur.id
+	}
+	return 0
+}
+
+// Enter counts one execution of an instrumented function. It is not a
+// scheduling point.
+func Enter(id int) {
+	e := active
+	if e == nil || e.cur == nil {
+		return
+	}
+	for id >= len(e.Calls) {
+		e.Calls = append(e.Calls, make([]int, id+64-len(e.Calls))...)
+	}
+	e.Calls[id]++
 }
 
 // Steps returns the number of visible operations each thread executed.
